@@ -15,11 +15,15 @@
   * a polyline moved with its `translate` field draws the moved rectangles;
   * a stroked polyline whose VERTICES are moved has the moved bounding box and `draw` fills the
     moved rectangles in the same order (segment iterator, scanline intersections with merging,
-    scanline iterator), under explicit guards that only exclude `i32` saturation / sentinels.
+    scanline iterator), under explicit guards that only exclude `i32` saturation / sentinels;
+  * a styled triangle (any stroke width, alignment, fill) moved by `d` has the moved bounding box
+    and `draw` issues the moved `fill_solid` calls with the same colours, under the same kind of
+    guards (vertex sorting, `is_collapsed`, closed segment iterator, `edge_intersections`).
 -/
 import EG.Lemmas.JoinsJoin
 import EG.Lemmas.JoinsPolyline
 import EG.Lemmas.JoinsPolyScan
+import EG.Lemmas.JoinsTriMove
 namespace EG.C07.Joins
 open EG EG.Joins
 
@@ -191,7 +195,46 @@ example : 2 ≤ 4 ∧ 2 ≤ ([⟨0, 0⟩, ⟨-6, -6⟩, ⟨-5, 3⟩] : List Pt).
     RowsGuard [⟨0, 0⟩, ⟨-6, -6⟩, ⟨-5, 3⟩] 4 ⟨-3, 4⟩ := by decide
 
 -- [V] pixels() of a stroked polyline moved with its translate field is the shifted pixel sequence: carried by correspondence + oracle only
--- [V] a stroked triangle moved by d paints the shifted picture and has the shifted bounding box (sorted_clockwise, is_collapsed, ClosedThickSegmentIter, edge_intersections, fill between the strokes): carried by correspondence + oracle only
--- [V] the guards (PolyNoSat, BoxGuard, RowsGuard: no saturating i32 cast, corners are i32 values) hold for all display-scale inputs: carried by correspondence + oracle only
+/-- `sorted_clockwise` commutes with translation (the doubled area is invariant). -/
+theorem triangle_sorted_clockwise_translate (t : Tri) (d : Pt) :
+    (t.translate d).sortedClockwise = t.sortedClockwise.translate d :=
+  sortedClockwise_translate t d
+
+/-- `is_collapsed` does not depend on the position. -/
+theorem triangle_is_collapsed_translate_partial (t : Tri) (w : Nat) (off : Thick.StrokeOffset) (d : Pt)
+    (h : TriNoSat t w off d) : (t.translate d).isCollapsed w off = t.isCollapsed w off :=
+  isCollapsed_translate t w off d h
+
+/-- Full-strength statement: moving a styled triangle moves its bounding box. -/
+def TriangleBoxTranslate : Prop :=
+  ∀ (t : Tri) (style : TriStyle) (d : Pt),
+    triStyledBoundingBox (t.translate d) style = (triStyledBoundingBox t style).map (·.translate d)
+
+/-- The styled bounding box of a moved triangle is the moved box (guards: no saturating cast in the
+three joins of the clockwise-sorted triangle; the first segment box absorbs the fold sentinels). -/
+theorem triangle_box_translate_partial (t : Tri) (style : TriStyle) (d : Pt)
+    (hns : TriNoSat t.sortedClockwise style.strokeWidth style.strokeAlignment.toOffset d)
+    (hg : TriBoxGuard t style d) :
+    triStyledBoundingBox (t.translate d) style = (triStyledBoundingBox t style).map (·.translate d) :=
+  triStyledBoundingBox_translate t style d hns hg
+
+/-- Full-strength statement: moving a styled triangle moves what `draw` paints. -/
+def TriangleDrawTranslate : Prop :=
+  ∀ (t : Tri) (style : TriStyle) (d : Pt),
+    triDraw (t.translate d) style = (triDraw t style).map (·.map (shiftCall · d))
+
+/-- **`draw` of a moved styled triangle issues the moved `fill_solid` calls, same order, same
+colours** - any stroke width, alignment and fill. Guards: `TriGuards` (no saturating cast in the
+joins, `i32` corners, `rows()` of the moved box not saturating). -/
+theorem triangle_draw_translate_partial (t : Tri) (style : TriStyle) (d : Pt)
+    (hg : TriGuards t style d) :
+    triDraw (t.translate d) style = (triDraw t style).map (·.map (shiftCall · d)) :=
+  triDraw_translate t style d hg
+
+-- the former C07 witness (triangle (-5,-4),(-5,-1),(-1,-4), width 3, Center, moved by (-7,-9)) satisfies the guards
+example : TriGuards ⟨⟨-5, -4⟩, ⟨-5, -1⟩, ⟨-1, -4⟩⟩ ⟨some 2, some 1, 3, .center⟩ ⟨-7, -9⟩ := by decide
+
+-- [V] pixels() of a styled triangle moved by d is the shifted pixel sequence (StyledPixelsIterator over the same scanline iterator): carried by correspondence + oracle only
+-- [V] the guards (PolyNoSat, BoxGuard, RowsGuard, TriGuards: no saturating i32 cast, corners are i32 values) hold for all display-scale inputs: carried by correspondence + oracle only
 
 end EG.C07.Joins
